@@ -261,6 +261,17 @@ class Builder:
                 info = {"sels": [pathsel]}
                 if it[0] == "A":
                     aid, opn, locv, ords, args = it[1], it[2], it[3], it[4], it[5]
+                    if opn == "fence":
+                        e = Ev(tid, "F", None, ords[0] if ords else "SeqCst", None, None, None, "T%d.%d %s fence[%s]" % (tid, opidx, label, "/".join(ords)), opidx=opidx)
+                        idx = self.add(e)
+                        for pidx in prev:
+                            if pidx is not None:
+                                self.po_edges.append((pidx, idx))
+                        node[prefix] = (idx, info)
+                        aenv[aid] = {"r": self.fresh("fence")}
+                        info["aenv"] = aenv[aid]
+                        prev = [idx]
+                        continue
                     loc = self.loc_of(locv, aenv, dataconst, data_shared)
                     r = self.fresh("r")
                     succ = ords[0] if ords else "Relaxed"
@@ -472,8 +483,10 @@ def encode(b, init_events):
                 if terms:
                     new[(a, w)] = Or([rs.get((a, w), BoolVal(False))] + terms)
         rs = new
-    # sw
+    # sw  (RC11: [rel]; ([F]; po)?; rs; rf; [R]; (po; [F])?; [acq])
     sw = {}
+    Frel = [i for i in range(n) if evs[i].kind == "F" and evs[i].ord in REL_ORDS]
+    Facq = [i for i in range(n) if evs[i].kind == "F" and evs[i].ord in ACQ_ORDS]
     for a in Wr:
         if evs[a].kind == "I":
             continue
@@ -481,8 +494,18 @@ def encode(b, init_events):
             if a == r or evs[a].tid == evs[r].tid:
                 continue
             terms = [And(rs[(a, w)], RF(w, r)) for w in Wr if w != r and (a, w) in rs]
-            if terms:
-                sw[(a, r)] = And(rel(a), acq(r), is_write(a), Or(terms))
+            if not terms:
+                continue
+            core = And(is_write(a), G[a], G[r], Or(terms))
+            sw[(a, r)] = And(rel(a), acq(r), core)
+            srcs = [(a, rel(a))] + [(f, BoolVal(True)) for f in Frel if po[f][a]]
+            dsts = [(r, acq(r))] + [(f, BoolVal(True)) for f in Facq if po[r][f]]
+            for (x, cx) in srcs:
+                for (y, cy) in dsts:
+                    if (x, y) == (a, r):
+                        continue
+                    t = And(cx, cy, core)
+                    sw[(x, y)] = Or(sw[(x, y)], t) if (x, y) in sw else t
     # hb = (po u sw)+ by log-squaring over named intermediates
     hb = [[None] * n for _ in range(n)]
     for i in range(n):
